@@ -31,6 +31,11 @@ theorem FailsWith.after_nil {p : P α} {f : α → P β} {bs : Bytes} {a : α} {
     (hp : Reads p bs a) (hf : FailsWith (f a) [] s) : FailsWith (P.bind p f) bs s := by
   have := FailsWith.after hp hf; simpa using this
 
+/-- a step that consumes nothing (a passed guard, a granted allocation) does not matter either -/
+theorem FailsWith.after_pre {p : P α} {f : α → P β} {cs : Bytes} {a : α} {s : Status}
+    (hp : Reads p [] a) (hf : FailsWith (f a) cs s) : FailsWith (P.bind p f) cs s := by
+  have := FailsWith.after hp hf; simpa using this
+
 /-- ... and an error inside the first part is the error of the whole -/
 theorem FailsWith.first {p : P α} {f : α → P β} {bs : Bytes} {s : Status}
     (hp : FailsWith p bs s) : FailsWith (P.bind p f) bs s := by
@@ -390,6 +395,91 @@ theorem negative_entry_count_in_file (c : Cfg) (sub : Option (List Bool)) (count
       ⟨.ok (1, 0), some (.error (.st .invalidSize)), [], none⟩ :=
   tm_failure_in_file c sub _ _ (negative_entry_count c count h32 h) rest fuel
 
+/-- counted loops: after any number of intact elements, a failure inside the next one is the
+    failure of the loop -/
+theorem FailsWith.many {p : P α} {γ : Type} (xs : List γ) (enc : γ → Bytes) (res : γ → α)
+    (h : ∀ x ∈ xs, Reads p (enc x) (res x)) (k : Nat) (bad : Bytes) (s : Status) (hbad : FailsWith p bad s) :
+    FailsWith (readMany (xs.length + (k + 1)) p) (xs.flatMap enc ++ bad) s := by
+  induction xs with
+  | nil =>
+    simp only [List.length_nil, Nat.zero_add, List.flatMap_nil, List.nil_append, readMany, P.bind_def]
+    exact FailsWith.first hbad
+  | cons x xs ih =>
+    have e : (x :: xs).length + (k + 1) = (xs.length + (k + 1)) + 1 := by simp; omega
+    rw [e]
+    simp only [readMany, P.bind_def, List.flatMap_cons, List.append_assoc]
+    refine FailsWith.after (h x (by simp)) ?_
+    exact FailsWith.first (ih (fun y hy => h y (by simp [hy])))
+
+/-- a table-level entry corrupted in a way `readTableEntry` reports with `s`, after any number of
+    intact entries: `sbdf_tm_read` fails with `s` -/
+theorem tm_fails_with_entry (c : Cfg) (good : List (Bytes × Obj × Option Obj)) (hg : ∀ e ∈ good, TableEntryOk c e)
+    (k : Nat) (hmax : ((good.length + (k + 1) : Nat) : Int) ≤ INT_MAX) (bad : Bytes) (s : Status)
+    (hbad : FailsWith (readTableEntry c) bad s) :
+    FailsWith (readTM c) (sec 2 ++ le c ((good.length + (k + 1) : Nat) : Int) ++
+      (good.flatMap (fun e => tableEntry c e.1 e.2.1 e.2.2) ++ bad)) s := by
+  unfold readTM; simp only [P.bind_def]
+  rw [List.append_assoc]
+  refine FailsWith.after (reads_secExpect 2 (by omega)) ?_
+  have hi : isInt32 ((good.length + (k + 1) : Nat) : Int) := by unfold INT_MAX at hmax; unfold isInt32; omega
+  refine FailsWith.after (reads_int32 c _ hi) ?_
+  have h0 : ¬ (((good.length + (k + 1) : Nat) : Int) < 0) := by omega
+  simp only [h0, if_false, Int.toNat_natCast]
+  exact FailsWith.first (FailsWith.many good _ (fun e => (⟨e.1, some e.2.1, e.2.2⟩ : MdEntry))
+    (fun e he => reads_tableEntry c e (hg e he)) k bad s hbad)
+
+/-- a presence flag other than 0/1 on the value of a table-level entry -/
+theorem entry_bad_value_flag (c : Cfg) (name : Bytes) (hn : fitsStr c name.length) (vt flag : UInt8)
+    (h0 : flag ≠ 0) (h1 : flag ≠ 1) :
+    FailsWith (readTableEntry c) (str c name ++ [vt] ++ [flag]) .arrayLen1 := by
+  unfold readTableEntry readMdValues; simp only [P.bind_def]
+  rw [List.append_assoc]
+  refine FailsWith.after (reads_string c name hn) ?_
+  refine FailsWith.after (bs := [vt]) (cs := [flag]) (reads_int8_lit vt) ?_
+  exact FailsWith.first (FailsWith.first (bad_table_flag c vt.toNat flag h0 h1))
+
+/-- ... anywhere among the table-level entries of an otherwise intact file: the first non-OK
+    status is array-length-must-be-1 and no slice is read -/
+theorem bad_table_flag_in_file (c : Cfg) (sub : Option (List Bool)) (good : List (Bytes × Obj × Option Obj))
+    (hg : ∀ e ∈ good, TableEntryOk c e) (k : Nat) (hmax : ((good.length + (k + 1) : Nat) : Int) ≤ INT_MAX)
+    (name : Bytes) (hn : fitsStr c name.length) (vt flag : UInt8) (h0 : flag ≠ 0) (h1 : flag ≠ 1)
+    (rest : Bytes) (fuel : Nat) :
+    readFileF c sub fuel (header ++ (sec 2 ++ le c ((good.length + (k + 1) : Nat) : Int) ++
+        (good.flatMap (fun e => tableEntry c e.1 e.2.1 e.2.2) ++ (str c name ++ [vt] ++ [flag]))) ++ rest).toArray =
+      ⟨.ok (1, 0), some (.error (.st .arrayLen1)), [], none⟩ :=
+  tm_failure_in_file c sub _ _ (tm_fails_with_entry c good hg k hmax _ _ (entry_bad_value_flag c name hn vt flag h0 h1)) rest fuel
+
+/-- a property of a column slice corrupted in a way `sbdf_va_read` reports with `s` (its value
+    array, after an intact name), after the intact values and any number of intact properties:
+    `sbdf_cs_read` fails with `s` -/
+theorem cs_fails_with_prop (c : Cfg) (values : VA) (hv : values.Fits c) (good : List (Bytes × VA))
+    (hg : ∀ p ∈ good, fitsStr c p.1.length ∧ p.2.Fits c) (k : Nat)
+    (hcap : ((good.length + (k + 1) : Nat) : Int) * 8 ≤ c.cap) (hmax : ((good.length + (k + 1) : Nat) : Int) * 8 ≤ INT_MAX)
+    (name : Bytes) (hn : fitsStr c name.length) (bad : Bytes) (s : Status) (hbad : FailsWith (readVA c) bad s) :
+    FailsWith (readCS c) (sec 4 ++ Spec.va c values ++ le c ((good.length + (k + 1) : Nat) : Int) ++
+      (good.flatMap (fun p => str c p.1 ++ Spec.va c p.2) ++ (str c name ++ bad))) s := by
+  unfold readCS; simp only [P.bind_def]
+  rw [List.append_assoc, List.append_assoc]
+  refine FailsWith.after (reads_secExpect 4 (by omega)) ?_
+  refine FailsWith.after (reads_va c values hv) ?_
+  have hi : isInt32 ((good.length + (k + 1) : Nat) : Int) := by unfold INT_MAX at hmax; unfold isInt32; omega
+  refine FailsWith.after (reads_int32 c _ hi) ?_
+  have h0 : ¬ (((good.length + (k + 1) : Nat) : Int) < 0) := by omega
+  have hpos : ((good.length + (k + 1) : Nat) : Int) > 0 := by omega
+  have hdiv : ¬ (((good.length + (k + 1) : Nat) : Int) > INT_MAX / 8) := by
+    have : ((good.length + (k + 1) : Nat) : Int) ≤ INT_MAX / 8 := Int.le_ediv_of_mul_le (by omega) hmax
+    omega
+  simp only [h0, if_false, hpos, if_true, hdiv]
+  have hgd : decide (((good.length + (k + 1) : Nat) : Int) * 8 ≤ INT_MAX) = true := by simpa using hmax
+  rw [hgd]
+  refine FailsWith.after_pre (a := ()) (Reads.guardTrue _) ?_
+  refine FailsWith.after_pre (a := ()) (Reads.allocOk c _ (by omega) hcap) ?_
+  simp only [Int.toNat_natCast]
+  refine FailsWith.first (FailsWith.many good _ id (fun p hp => ?_) k _ s ?_)
+  · exact reads_prop c p (hg p hp).1 (hg p hp).2
+  · unfold readProp; simp only [P.bind_def]
+    exact FailsWith.after (reads_string c name hn) (FailsWith.first hbad)
+
 /-- ... in particular a value array corrupted in any way `sbdf_va_read` reports with `s`, in any
     column of the slice after any number of intact columns: unknown encoding or type id, negative
     element count, negative string length, negative bit-array row count, … — every decision
@@ -405,6 +495,22 @@ theorem corrupt_value_array_in_file (c : Cfg) (p : PhysTM) (cols : List Md) (sli
       ⟨.ok (1, 0), some (.ok (C04.logicalTM p cols)), slices.map (fun x => ⟨maskFrom none 0 x⟩),
        some (.failed (.st s))⟩ := by
   have h := ts_fails_with_cs c good hg k _ s (cs_fails_with_va c bad s hbad) hcap hmax
+  exact file_then_failure c p cols slices hp hn hf _ s (by rw [hk]; exact h) rest fuel hfuel
+
+/-- the most general slice-level form: a column slice on which `sbdf_cs_read` fails with `s`
+    (corrupted values, a corrupted property — `cs_fails_with_va`, `cs_fails_with_prop`), after any
+    number of intact columns of the slice and any number of intact slices of an intact file -/
+theorem corrupt_column_in_file (c : Cfg) (p : PhysTM) (cols : List Md) (slices : List (List CS))
+    (hp : p.Ok c cols) (hn : ∀ x ∈ slices, x.length = p.cols.length) (hf : ∀ x ∈ slices, TSFits c x)
+    (good : List CS) (hg : ∀ x ∈ good, x.Fits c) (k : Nat) (hk : p.cols.length = good.length + (k + 1))
+    (hcap : ((good.length + (k + 1) : Nat) : Int) * 8 ≤ c.cap) (hmax : ((good.length + (k + 1) : Nat) : Int) ≤ INT_MAX)
+    (bad : Bytes) (s : Status) (hbad : FailsWith (readCS c) bad s)
+    (rest : Bytes) (fuel : Nat) (hfuel : slices.length < fuel) :
+    readFileF c none fuel (header ++ Spec.tm c p ++ (slices.flatMap (Spec.ts c) ++
+        (sec 3 ++ le c ((good.length + (k + 1) : Nat) : Int) ++ (good.flatMap (Spec.cs c) ++ bad))) ++ rest).toArray =
+      ⟨.ok (1, 0), some (.ok (C04.logicalTM p cols)), slices.map (fun x => ⟨maskFrom none 0 x⟩),
+       some (.failed (.st s))⟩ := by
+  have h := ts_fails_with_cs c good hg k _ s hbad hcap hmax
   exact file_then_failure c p cols slices hp hn hf _ s (by rw [hk]; exact h) rest fuel hfuel
 
 /-- value arrays: a plain array with a negative element count -/
